@@ -116,6 +116,16 @@ class Program:
                         ci.decorators[sub.name] = decs
                     elif isinstance(sub, ast.Assign) and len(sub.targets) == 1 and isinstance(sub.targets[0], ast.Name):
                         ci.consts[sub.targets[0].id] = sub.value
+                ci.classvars = set()
+                for w in ast.walk(node):
+                    tgts = []
+                    if isinstance(w, ast.Assign):
+                        tgts = w.targets
+                    elif isinstance(w, (ast.AugAssign, ast.AnnAssign)):
+                        tgts = [w.target]
+                    for t in tgts:
+                        if isinstance(t, ast.Attribute) and isinstance(t.value, ast.Name) and t.value.id in ("cls", node.name):
+                            ci.classvars.add(t.attr)
                 mi.classes[node.name] = ci
             elif isinstance(node, ast.FunctionDef):
                 mi.functions[node.name] = node
@@ -218,6 +228,17 @@ class Program:
             if meth in c.methods:
                 return c, c.methods[meth]
         return None, None
+
+    def class_var(self, clsname, name):
+        """the class (along the MRO) that declares `name` as a class attribute which some method re-assigns
+        (cls.name = ... / Class.name = ...): a mutable class variable, not a constant"""
+        ci = self.find_class(clsname)
+        for c in self.mro(ci):
+            if name in getattr(c, "classvars", ()):
+                return c
+            if name in c.consts:
+                return None
+        return None
 
     def class_const(self, clsname, name):
         ci = self.find_class(clsname)
